@@ -6,6 +6,7 @@ harness), args / args_quick / args_thorough, tiers.
 """
 
 RS28_TU = ["reed-solomon_gf_2_8__of_reed-solomon_gf_2_8"]
+HOOK_COMMITS = ["744ff62"]
 
 PROPS = {
     "C14": {
@@ -163,3 +164,15 @@ PROPS["C15"] = {
 PROPS["C02"]["runs"] += [{"name": "rsgen-trk", "src": "h_enc.c", "variant": "trk", "args": ["--mode", "rs"]}]
 PROPS["C07"]["runs"] += [{"name": "enc-rs-asan", "src": "h_enc.c", "variant": "asan", "args": ["--mode", "rs"]},
                          {"name": "enc-ldpc-asan", "src": "h_enc.c", "variant": "asan", "args": ["--mode", "ldpc"]}]
+
+
+PROPS["C17"] = {
+    "level": "model_checking",
+    "claim": "explicit-state BFS over sequences of the exported sparse-matrix operations on two real matrices (insert, find+delete, clear, copy, copyrows/copycols with every index vector, the _opt variants into an empty destination, copy_filled_matrix with every order-preserving map, sparse->dense->sparse, free+reallocate) against a set model; after every step find <=> membership, idempotent insert, every row/column traversal lists exactly the members in increasing order forwards and backwards; run under AddressSanitizer and under the allocation tracker (freeing releases everything); entry blocks of 4 (hook) so that block exhaustion and recycling are reached",
+    "rule": "state = (entry sets of A and B, free-list length, block count) reached by an operation history; closure complete for the small dimension pairs, depth/state-capped (reported) for the larger ones",
+    "bounds": {"quick": "dimension pairs 1x2/1x2, 2x1/2x2, 2x2/2x2, 2x2/2x3, 1x3/2x3, 3x1/3x2, 1x4/1x4 to closure; 2x3/3x3 to depth 5", "thorough": "same to closure; 2x3/2x3 depth 10, 2x3/3x3 depth 7, 3x3/3x3 depth 6, 2x4/3x4 depth 6, 3x4/4x4 depth 5 or 10^6 states"},
+    "assumptions": ["library built with -DOPENFEC_VERIF -DOPENFEC_VERIF_SPARSE_BLOCK=4 (hook 744ff62): block size 4 instead of 1024", "_opt copies are only exercised into an empty destination (their internal clear is commented out upstream, so a non-empty destination is not an in-range use)"],
+    "runs": [{"name": "sparse-asan", "src": "h_sparse.c", "variant": "asan", "lib_defs": ["-DOPENFEC_VERIF_SPARSE_BLOCK=4"]},
+             {"name": "sparse-trk", "src": "h_sparse.c", "variant": "trk", "lib_defs": ["-DOPENFEC_VERIF_SPARSE_BLOCK=4"]}],
+    "budget": {"quick": 600, "thorough": 5400},
+}
